@@ -9,9 +9,8 @@ pub open spec fn wf<T>(c: ChannelInternal<T>) -> bool {
     &&& (!c.recv_blocking && c.wait_list@.len() > 0 ==> c.queue@.len() == c.capacity)
     // W3 receivers wait only on an empty buffer                                   (C02)
     &&& (c.recv_blocking && c.wait_list@.len() > 0 ==> c.queue@.len() == 0)
-    // W4 nobody waits once the receive side is gone; no receiver waits once the send side is gone (C10, C11)
-    &&& (c.recv_count == 0 ==> c.wait_list@.len() == 0)
-    &&& (c.send_count == 0 && c.recv_blocking ==> c.wait_list@.len() == 0)
+    // W4 nobody waits on a dead side                                                (C10, C11)
+    &&& ((c.recv_count == 0 || c.send_count == 0) ==> c.wait_list@.len() == 0)
 }
 
 // ------------------------------------------------------------------ abstraction
@@ -158,4 +157,130 @@ pub open spec fn pops_used<T>(fx: Fx<T>) -> bool {
 }
 pub open spec fn no_effects<T>(fx: Fx<T>) -> bool {
     fx.sent.len() == 0 && fx.taken.len() == 0 && fx.terminated.len() == 0
+}
+
+// ------------------------------------------------------------------ result functions of the reference channel
+pub open spec fn try_send_result<T>(a: A<T>) -> Result<bool, SendError> {
+    match ref_send_class(a) {
+        SendClass::Closed => Err(SendError::Closed),
+        SendClass::ReceiveClosed => Err(SendError::ReceiveClosed),
+        SendClass::Handoff | SendClass::Buffered => Ok(true),
+        SendClass::Full => Ok(false),
+    }
+}
+pub open spec fn try_recv_result<T>(a: A<T>) -> Result<Option<T>, ReceiveError> {
+    match ref_recv_class(a) {
+        RecvClass::Closed => Err(ReceiveError::Closed),
+        RecvClass::SendClosed => Err(ReceiveError::SendClosed),
+        RecvClass::Empty => Ok(None),
+        _ => Ok(ref_recv_value(a)),
+    }
+}
+/// the value moved iff the class is Handoff or Buffered
+pub open spec fn send_moved<T>(a: A<T>) -> bool { ref_send_class(a) is Handoff || ref_send_class(a) is Buffered }
+
+/// a complete non-blocking send-type call with exactly one critical section (O-step)
+pub open spec fn send_step<T>(fx: Fx<T>, d: T) -> bool {
+    &&& aeq(post0(fx), ref_send_post(pre0(fx), d))
+    &&& fx.sent =~= ref_send_handoff(pre0(fx), d)
+    &&& fx.taken.len() == 0 && fx.terminated.len() == 0
+}
+pub open spec fn recv_step<T>(fx: Fx<T>) -> bool {
+    &&& aeq(post0(fx), ref_recv_post(pre0(fx)))
+    &&& fx.taken =~= ref_recv_taken(pre0(fx))
+    &&& fx.sent.len() == 0 && fx.terminated.len() == 0
+}
+/// an observer: one critical section that changes nothing
+pub open spec fn observed<T>(fx: Fx<T>) -> bool {
+    &&& fx.cs.len() == 1 && !fx.held
+    &&& fx.cs[0].post == fx.cs[0].pre
+    &&& no_effects(fx)
+    &&& fx.popped == Set::<(SignalTerminator<T>, Role)>::empty()
+}
+/// a call that did not enter any critical section and had no effect (realtime variants when the lock is busy)
+pub open spec fn no_section<T>(fx: Fx<T>) -> bool {
+    fx.cs.len() == 0 && !fx.held && no_effects(fx) && fx.popped == Set::<(SignalTerminator<T>, Role)>::empty()
+}
+pub open spec fn nothing_registered<T>(fx: Fx<T>) -> bool {
+    forall|k: int| 0 <= k < fx.cs.len() ==> (#[trigger] alpha(fx.cs[k].post)).s.len() <= alpha(fx.cs[k].pre).s.len() && alpha(fx.cs[k].post).r.len() <= alpha(fx.cs[k].pre).r.len()
+}
+
+// ------------------------------------------------------------------ blocking operations: register + complete (Appendix A, s4 / r7)
+/// first section of a blocking / timed / pending send: either a complete non-registering step, or
+/// (class Full) the caller's waiter is appended to the sender list with the caller's value as payload
+pub open spec fn send_first_section<T>(fx: Fx<T>, d: T) -> bool {
+    let a = pre0(fx);
+    let b = post0(fx);
+    if ref_send_class(a) is Full {
+        &&& b.s.len() == a.s.len() + 1
+        &&& aeq(b, ref_send_register(a, b.s.last()))
+        &&& payload(b.s.last()) == d
+        &&& no_effects(fx)
+    } else {
+        send_step(fx, d)
+    }
+}
+/// the waiter this call registered (meaningful when the class of the first section is Full / Empty)
+pub open spec fn my_sender<T>(fx: Fx<T>) -> SignalTerminator<T> { post0(fx).s.last() }
+pub open spec fn my_receiver<T>(fx: Fx<T>) -> SignalTerminator<T> { post0(fx).r.last() }
+
+pub open spec fn send_result<T>(fx: Fx<T>) -> Result<(), SendError> {
+    match ref_send_class(pre0(fx)) {
+        SendClass::Closed => Err(SendError::Closed),
+        SendClass::ReceiveClosed => Err(SendError::ReceiveClosed),
+        SendClass::Handoff | SendClass::Buffered => Ok(()),
+        SendClass::Full => if t_delivered(my_sender(fx)) { Ok(()) } else { Err(SendError::Closed) },
+    }
+}
+pub open spec fn recv_first_section<T>(fx: Fx<T>) -> bool {
+    let a = pre0(fx);
+    let b = post0(fx);
+    if ref_recv_class(a) is Empty {
+        &&& b.r.len() == a.r.len() + 1
+        &&& aeq(b, ref_recv_register(a, b.r.last()))
+        &&& no_effects(fx)
+    } else {
+        recv_step(fx)
+    }
+}
+pub open spec fn recv_result<T>(fx: Fx<T>) -> Result<T, ReceiveError> {
+    match ref_recv_class(pre0(fx)) {
+        RecvClass::Closed => Err(ReceiveError::Closed),
+        RecvClass::SendClosed => Err(ReceiveError::SendClosed),
+        RecvClass::Empty => if t_delivered(my_receiver(fx)) { Ok(received(my_receiver(fx))) } else { Err(ReceiveError::Closed) },
+        _ => Ok(ref_recv_value(pre0(fx))->0),
+    }
+}
+/// the lent sender slot at an exit of its scope (O-slot-disposed): delivered => still initialised and
+/// not dropped by the sender; not delivered and T needs dropping => dropped exactly once
+pub open spec fn slot_disposed<T>(sig: &Signal<T>, data: MaybeUninit<T>) -> bool {
+    &&& sig.delivered() ==> data.mem_contents() is Init
+    &&& (!sig.delivered() && spec_needs_drop::<T>()) ==> data.mem_contents() is Uninit
+}
+/// nothing observable changed (field-wise; VecDeque values are compared through their views)
+pub open spec fn same_state<T>(x: ChannelInternal<T>, y: ChannelInternal<T>) -> bool {
+    x.queue@ == y.queue@ && x.wait_list@ == y.wait_list@ && x.recv_blocking == y.recv_blocking && same_meta(x, y)
+}
+/// the section removed exactly the entry `t` (first occurrence found) and kept everything else in order
+pub open spec fn cancelled_section<T>(c: CS<T>, t: SignalTerminator<T>) -> bool {
+    exists|i: int| 0 <= i < c.pre.wait_list@.len() && c.pre.wait_list@[i] == t
+        && c.post.wait_list@ =~= c.pre.wait_list@.remove(i)
+        && c.post.queue@ == c.pre.queue@ && same_meta(c.pre, c.post) && c.post.recv_blocking == c.pre.recv_blocking
+}
+/// second critical section of a timed operation / of a future's drop: either it removed exactly the
+/// caller's own entry or it changed nothing
+pub open spec fn cancel_section<T>(c: CS<T>, t: SignalTerminator<T>) -> bool {
+    same_state(c.pre, c.post) || cancelled_section(c, t)
+}
+/// the critical section left the abstract state as it was
+pub open spec fn unchanged<T>(c: CS<T>) -> bool { aeq(alpha(c.post), alpha(c.pre)) }
+pub open spec fn recv_registered<T>(fx: Fx<T>) -> bool { post0(fx).r.len() == pre0(fx).r.len() + 1 }
+pub open spec fn send_registered<T>(fx: Fx<T>) -> bool { post0(fx).s.len() == pre0(fx).s.len() + 1 }
+
+/// Option-taking timed send, at an exit of the lent slot's scope: delivered => the slot was not read
+/// back and the caller's option is empty; not delivered => the value is back in the caller's option
+pub open spec fn slot_handed_back<T>(sig: &Signal<T>, slot: MaybeUninit<T>, data: Option<T>) -> bool {
+    &&& slot.mem_contents() is Init
+    &&& sig.delivered() ==> data is None
+    &&& !sig.delivered() ==> data == Some(slot.mem_contents().value())
 }
